@@ -35,25 +35,25 @@ type Inconclusive struct {
 
 // Result is what one worker process reports.
 type Result struct {
-	Prop         string             `json:"property"`
-	Mode         string             `json:"mode"`
-	Build        string             `json:"build"`
-	First        int64              `json:"first"`
-	N            int64              `json:"n"`
-	CasesRun     int64              `json:"cases_run"`
-	Counters     map[string]int64   `json:"counters"`
-	Maxes        map[string]int64   `json:"maxes"`
-	Distinct     map[string]string  `json:"distinct"` // class -> base64(le uint64s)
-	NonTrivial   string             `json:"nontrivial"`
-	Samples      []any              `json:"samples"`
-	Violations   []Violation        `json:"violations"`
-	Inconclusive []Inconclusive     `json:"inconclusive"`
+	Prop         string            `json:"property"`
+	Mode         string            `json:"mode"`
+	Build        string            `json:"build"`
+	First        int64             `json:"first"`
+	N            int64             `json:"n"`
+	CasesRun     int64             `json:"cases_run"`
+	Counters     map[string]int64  `json:"counters"`
+	Maxes        map[string]int64  `json:"maxes"`
+	Distinct     map[string]string `json:"distinct"` // class -> base64(le uint64s)
+	NonTrivial   string            `json:"nontrivial"`
+	Samples      []any             `json:"samples"`
+	Violations   []Violation       `json:"violations"`
+	Inconclusive []Inconclusive    `json:"inconclusive"`
 	distinct     map[string]map[uint64]struct{}
 	nontrivial   map[uint64]struct{}
 	mu           sync.Mutex
-	Tagged       bool               `json:"tagged"`
-	GoVersion    string             `json:"go_version"`
-	Notes        map[string]string  `json:"notes,omitempty"`
+	Tagged       bool              `json:"tagged"`
+	GoVersion    string            `json:"go_version"`
+	Notes        map[string]string `json:"notes,omitempty"`
 }
 
 func NewResult(prop, mode, build string) *Result {
